@@ -25,6 +25,8 @@ pub struct TCell {
     pub attr: Option<(&'static str, &'static str)>,
     /// a cell without words whose source holds white space only (<td> </td>)
     pub blank: bool,
+    /// the words are written inside <pre> ... </pre> with a final line break (a listing)
+    pub pre: bool,
 }
 
 impl TCell {
@@ -67,9 +69,11 @@ pub struct TTable {
     pub tfoot_first: bool,
     /// the body rows from this index (into the body) on form a second <tbody>
     pub tbody_split: Option<usize>,
-    /// id attributes on the table, its first row and the first cell of every row
-    /// (fragment markers are zero-width and must not disturb the drawing)
+    /// id attributes on the table, its row groups, its first row and the first cell of
+    /// every row (fragment markers are zero-width and must not disturb the drawing)
     pub ids: bool,
+    /// every row group starts with a row that has no cells (<tr></tr>)
+    pub empty_first_rows: bool,
 }
 
 impl TTable {
@@ -92,7 +96,11 @@ impl TTable {
             let mut cells = Vec::new();
             for c in row {
                 let mut content: Vec<Node> = Vec::new();
-                if c.paras {
+                if c.pre && !c.words.is_empty() {
+                    let mut t = c.words.join(" ");
+                    t.push('\n');
+                    content.push(El::with("pre", vec![Node::Raw(t)]).node());
+                } else if c.paras {
                     let mut seg: Vec<Node> = Vec::new();
                     for (i, w) in c.words.iter().enumerate() {
                         if !seg.is_empty() {
@@ -152,10 +160,24 @@ impl TTable {
         }
         let mut kids = Vec::new();
         let had_head = !head.is_empty();
+        let ids = self.ids;
+        let efr = self.empty_first_rows;
+        let mut gi = 0usize;
+        let mut group = |tag: &str, mut rows: Vec<Node>| -> Node {
+            if efr {
+                rows.insert(0, El::with("tr", Vec::new()).node());
+            }
+            let mut e = El::with(tag, rows);
+            if ids {
+                e.attrs.push(("id".into(), format!("g{}", gi)));
+                gi += 1;
+            }
+            e.node()
+        };
         if !head.is_empty() {
-            kids.push(El::with("thead", head).node());
+            kids.push(group("thead", head));
         }
-        let foot_node = if foot.is_empty() { None } else { Some(El::with("tfoot", foot).node()) };
+        let foot_node = if foot.is_empty() { None } else { Some(group("tfoot", foot)) };
         if self.tfoot_first {
             if let Some(f) = foot_node.clone() {
                 kids.push(f);
@@ -165,10 +187,10 @@ impl TTable {
             match self.tbody_split {
                 Some(k) if k > 0 && k < body.len() => {
                     let second = body.split_off(k);
-                    kids.push(El::with("tbody", body).node());
-                    kids.push(El::with("tbody", second).node());
+                    kids.push(group("tbody", body));
+                    kids.push(group("tbody", second));
                 }
-                _ => kids.push(El::with("tbody", body).node()),
+                _ => kids.push(group("tbody", body)),
             }
         }
         if !self.tfoot_first {
@@ -181,6 +203,50 @@ impl TTable {
             t.attrs.push(("id".into(), "t0".into()));
         }
         t.node()
+    }
+    /// Number of cells of every <tr> in source order, including the cell-less rows that
+    /// `empty_first_rows` puts at the start of each row group.
+    pub fn source_row_cells(&self) -> Vec<usize> {
+        let n = self.rows.len();
+        let nh = self.thead_rows.min(n);
+        let nf = if self.tfoot_rows == 0 { 0 } else { self.tfoot_rows.min(n - nh) };
+        let head: Vec<usize> = (0..nh).collect();
+        let (foot, body): (Vec<usize>, Vec<usize>) = if nf == 0 {
+            (Vec::new(), (nh..n).collect())
+        } else if self.tfoot_first {
+            ((nh..nh + nf).collect(), (nh + nf..n).collect())
+        } else {
+            ((n - nf..n).collect(), (nh..n - nf).collect())
+        };
+        let mut groups: Vec<Vec<usize>> = Vec::new();
+        if !head.is_empty() {
+            groups.push(head);
+        }
+        if self.tfoot_first && !foot.is_empty() {
+            groups.push(foot.clone());
+        }
+        if !body.is_empty() || (nh == 0 && foot.is_empty()) {
+            match self.tbody_split {
+                Some(k) if k > 0 && k < body.len() => {
+                    groups.push(body[..k].to_vec());
+                    groups.push(body[k..].to_vec());
+                }
+                _ => groups.push(body),
+            }
+        }
+        if !self.tfoot_first && !foot.is_empty() {
+            groups.push(foot);
+        }
+        let mut v = Vec::new();
+        for g in groups {
+            if self.empty_first_rows {
+                v.push(0);
+            }
+            for r in g {
+                v.push(self.rows[r].len());
+            }
+        }
+        v
     }
     /// all T-text of the table in document order
     pub fn all_text(&self) -> String {
@@ -291,6 +357,7 @@ pub fn make_cell(rng: &mut Rng, tok: &mut Tokens, kind: Content, span: usize, wi
         trail_br: 0,
         attr: None,
         blank: false,
+        pre: false,
     }
 }
 
@@ -374,6 +441,7 @@ pub fn gen_table(rng: &mut Rng, tok: &mut Tokens, depth: usize, allow_nested: bo
         tfoot_first,
         tbody_split,
         ids: false,
+        empty_first_rows: false,
     }
 }
 
@@ -458,6 +526,7 @@ pub fn exhaustive_table(mut idx: u64, max_rows: usize, max_cols: usize, rng: &mu
                     tfoot_first: false,
                     tbody_split: None,
                     ids: false,
+                    empty_first_rows: false,
                 };
             }
             idx -= n;
@@ -472,6 +541,7 @@ pub fn exhaustive_table(mut idx: u64, max_rows: usize, max_cols: usize, rng: &mu
         tfoot_first: false,
         tbody_split: None,
         ids: false,
+        empty_first_rows: false,
     }
 }
 
@@ -863,8 +933,8 @@ pub fn check_stacked(t: &TTable, grid: &[Vec<char>], lay: &Layout, cfg: &Cfg) ->
     let mut expected: Vec<char> = Vec::new();
     if cfg.borders_on() {
         expected.push('─');
-        for row in &t.rows {
-            for _ in 1..row.len() {
+        for ncells in t.source_row_cells() {
+            for _ in 1..ncells {
                 expected.push('/');
             }
             expected.push('─');
